@@ -351,9 +351,11 @@ class Machine:
     def _e_cmp(self, e):
         l = self.ev(e.left)
         r = self.ev(e.right)
+        t = type(e)
+        if type(l) is bool and type(r) is bool and t in (ir.Equal, ir.NotEqual):
+            return (l == r) if t is ir.Equal else (l != r)
         if type(l) is not int or type(r) is not int:
             raise Fault("type", f"comparison of non-integers {l!r}, {r!r}")
-        t = type(e)
         if t is ir.Equal:
             return l == r
         if t is ir.NotEqual:
